@@ -227,7 +227,7 @@ func Run(cfg Config) int {
 		fmt.Printf("%s: %d obligations, %d discharged, %d failed, %d functions under contract, %d trusted, %d paths; gen %.1fs, solver %.1fs (cpu), wall %.1fs\n",
 			propOr(cfg.Prop), len(obls), discharged, len(failed), len(fnames), len(trusted), paths, genSecs, solverSecs, wall)
 	} else {
-		fmt.Printf("%d obligations, %d discharged; wall %.1fs\n", len(obls), discharged, wall)
+		fmt.Printf("%d obligations, %d discharged, %d refused; wall %.1fs\n", len(obls), discharged, len(refused), wall)
 	}
 	if cfg.Evidence != "" {
 		var samples []map[string]interface{}
